@@ -79,6 +79,12 @@ CHECKS.update({
    design_ref="7", note="Trusted base: unshare/tmpfs isolation, od/stat to read the published segment. Without chronyd the first poll fails at once and the first (Unknown) record is published within milliseconds."),
 })
 
+CHECKS.update({
+ "C15": dict(engine="threadmc", category="model_checking", technique="stateless model checking of the real daemon threads under a controlled (baton) scheduler: iterative preemption-bounded DFS over schedules x exhaustive fault placement",
+   text="The real thread_manager::run with its real poller and writer threads (std threads serialised by a baton behind cfg-gated mpsc/spawn stand-ins, virtual time) is executed for every schedule with at most 2 (thorough: 4) preemptions and at most 1 (2) unfairly early timeouts, for every fault placement: victim in {poller, writer} x every fault opportunity of start-up and the first 3 (4) loop iterations (before/after every send, receive, chrony query; the named loop-head and start-up points) x {panic, early return}, a real start-up failure (segment path uncreatable), chronyd answering or silent, both orders of the abort broadcast. Oracle on every execution in which the fault fired: run() returns, every thread is joined, no deadlock (the daemon lingering), exit within 4 + u virtual seconds.",
+   design_ref="5", note="Trusted base: the scheduler in harness/src/threadmc/sched.rs; the stand-ins in clock-bound-d/src/verif.rs (they wrap the real std channels and threads; a disagreement between the model queue and the real channel is a hard error). Code between two scheduling points is assumed atomic (workers share nothing but channels and the segment). Bounded preemptions and horizon; not an unbounded liveness proof."),
+})
+
 NOT_APPLICABLE = {}
 
 def main():
